@@ -194,6 +194,7 @@ def run(ctx, rep):
     r11a(ctx, rep)
     r11b(ctx, rep)
     tables.r11c(ctx, rep)
+    tables.r11f(ctx, rep)
     r11e(ctx, rep)
     from . import units
     units.r15a(ctx, rep, rule="R11d", scope=("marwood::lex::", "marwood::parse::", "marwood::syntax::"))
